@@ -347,6 +347,7 @@ fn run_shard(ctx: &ShardCtx) {
             for _ in 0..stats.skipped_unspecified {
                 ctx.skipped();
             }
+            ctx.count_evals(stats.steps);
             let mut any = false;
             for (p, fp, sample) in stats.nontrivial {
                 if p == "C11" {
